@@ -67,6 +67,8 @@ LOCKS_T = dict(name="locks_t", kind="locks", driver="lockcheck", threads=4, call
 
 EXPR_Q = R("expr_q", "expr_q.cfg", expect_ops=["expression", "request", "response", "event", "malform", "obs_parse"])
 
+OBS_Q3 = R("obscure_q3", "obscure_q3.cfg", expect_ops=["compress_subject", "uncompress_subject", "encrypt_subject", "decrypt_subject", "replace_subject"])
+
 PLAN = {
     "C01": dict(
         rule="every transition TLC explores in the bounded machine (all call sequences up to the depth bound over the listed action families, 2 registers, atoms a1,a2 + known value 1, plus every clear shape of <= 5 elements as input to the obscuring calls) is executed against the real library in several concretisation rounds (atoms -> typed values of every leaf CBOR type); the digest of the result and of every element of it must equal SHA-256 evaluated from the specification's digest term. non-trivial = distinct (call, expected result) pairs whose result has >= 2 elements or is an error",
@@ -75,7 +77,7 @@ PLAN = {
     ),
     "C02": dict(
         rule="every shape of <= 5 elements x every target subset (<= 3 digests incl. an absent one) x both modes x {elide, encrypt, compress} and the whole-envelope calls, then a second obscuring call on the result; digests at every surviving position compared with the specification's terms",
-        quick=[OBS_Q, OBS_Q2],
+        quick=[OBS_Q, OBS_Q2, OBS_Q3],
     ),
     "C03": dict(
         rule="as C02; the expected tree says exactly which positions are hidden, the serialized bytes must equal the evaluated wire term (no residue), unelide with every register pair",
